@@ -68,21 +68,33 @@ class Real:
         from textx import get_children, get_children_of_type, get_model, get_parent_of_type
         real_mm = self.metamodels[variant]
         text = nav.render(self.mm, g)
+        from textx.exceptions import TextXSyntaxError
         try:
             model = real_mm.model_from_str(text)
-        except Exception as e:  # the renderer only produces loadable models
-            raise tlc.MachineryError(f"rendered model does not load: {type(e).__name__}: {e}\n{text}")
+        except TextXSyntaxError as e:  # the renderer only produces sentences of the carrier grammar
+            raise tlc.MachineryError(f"rendered model is not a sentence of the carrier grammar: {e}\n{text}")
+        except Exception as e:  # construction / reference resolution of a well-formed model failed
+            return dict(load=f"!{type(e).__name__}: {str(e)[:200]}"), text
         loc = nav.Located(self.mm, g, model)
         if loc.problems or len(loc.real) != nav.n_objs(g):
             return dict(structure=loc.problems or ["objects missing"]), text
         n = nav.n_objs(g)
         objs = [loc.real[o] for o in range(1, n + 1)]
         cnames = [c["name"] for c in self.mm["classes"]]
+
+        def call(f, *a, **k):
+            """Result of an API call as object number(s); an exception is an observation, not a harness failure."""
+            try:
+                r = f(*a, **k)
+            except Exception as e:
+                return f"!{type(e).__name__}"
+            return [loc.number(x) for x in r] if isinstance(r, list) else loc.number(r)
+
         obs = dict(
-            parent=[loc.number(getattr(x, "parent", None)) for x in objs],
-            model=[loc.number(get_model(x)) for x in objs],
-            pot=[[loc.number(get_parent_of_type(c, x)) for c in cnames] for x in objs],
-            pot_cls=[[loc.number(get_parent_of_type(real_mm[c], x)) for c in cnames] for x in objs],
+            parent=[call(getattr, x, "parent", None) for x in objs],
+            model=[call(get_model, x) for x in objs],
+            pot=[[call(get_parent_of_type, c, x) for c in cnames] for x in objs],
+            pot_cls=[[call(get_parent_of_type, real_mm[c], x) for c in cnames] for x in objs],
             ch=[], ch_cls=[],
         )
         for q in queries:
@@ -99,14 +111,12 @@ class Real:
             root = loc.real[q["r"]]
             if q["typ"] == "":
                 sset = set(q["S"])
-                res = get_children(lambda x, sset=sset: loc.num.get(id(x)) in sset, root, **kw)
-                obs["ch"].append([loc.number(x) for x in res])
-                obs["ch_cls"].append([loc.number(x) for x in res])
+                res = call(get_children, lambda x, sset=sset: loc.num.get(id(x)) in sset, root, **kw)
+                obs["ch"].append(res)
+                obs["ch_cls"].append(res)
             else:
-                res = get_children_of_type(q["typ"], root, **kw)
-                res2 = get_children_of_type(real_mm[q["typ"]], root, **kw)
-                obs["ch"].append([loc.number(x) for x in res])
-                obs["ch_cls"].append([loc.number(x) for x in res2])
+                obs["ch"].append(call(get_children_of_type, q["typ"], root, **kw))
+                obs["ch_cls"].append(call(get_children_of_type, real_mm[q["typ"]], root, **kw))
         return obs, text
 
 
@@ -116,6 +126,8 @@ def _expected(ans):
 
 
 def _why(g, queries, obs, exp):
+    if "load" in obs:
+        return "a well-formed model of the carrier family does not load: " + obs["load"]
     if "structure" in obs:
         return "containment attributes do not hold the rendered children: " + "; ".join(obs["structure"][:3])
     p = nav.paths(g)
